@@ -305,6 +305,12 @@ fn payload(seed: u64, len: usize) -> Vec<u8> {
     (0..len as u64).map(|i| prior_byte(seed, 0x5000 + i)).collect()
 }
 
+/// the rule of C15 (symbol time 2^SF/BW >= 16.38 ms), used only to tell a derived LDRO setting from a forced one
+pub fn rule_ldro(sf: u8, bw_hz: u32) -> bool {
+    // 2^sf / bw >= 0.01638 s  <=>  2^sf * 100_000 >= 1638 * bw
+    (1u64 << sf) * 100_000 >= 1638 * bw_hz as u64
+}
+
 /// lora-phy side of one operation
 fn lp_exec<C: Sx126xVariant>(r: &mut Sx126x<Wire126, ResetIv, C>, wire: &Wire126, seed: u64, op: &Op126) -> Result<(), RadioError> {
     match op {
@@ -320,10 +326,34 @@ fn lp_exec<C: Sx126xVariant>(r: &mut Sx126x<Wire126, ResetIv, C>, wire: &Wire126
                 low_data_rate_optimize: *ldro,
                 frequency_in_hz: *hz,
             };
+            // creator route: the parameter object reaches the driver the way every user of the LoRa
+            // layer obtains it (RadioKind::create_modulation_params) whenever the requested LDRO
+            // setting is the one the creator derives itself; a forced setting only exists as a literal
+            let mp = match r.create_modulation_params(mp.spreading_factor, mp.bandwidth, mp.coding_rate, mp.frequency_in_hz) {
+                Ok(created) if rule_ldro(*sf, *bw_hz) == (*ldro != 0) && *ldro <= 1 => created,
+                _ => mp,
+            };
             block_on(r.set_modulation_params(&mp))
         }
         Op126::Pkt { preamble, implicit, len, crc, iq } => {
-            let pp = PacketParams { preamble_length: *preamble, implicit_header: *implicit, payload_length: *len, crc_on: *crc, iq_inverted: *iq };
+            let literal = PacketParams { preamble_length: *preamble, implicit_header: *implicit, payload_length: *len, crc_on: *crc, iq_inverted: *iq };
+            // creator route (RadioKind::create_packet_params) under a spreading factor taken from the
+            // case seed; SF5/SF6 with fewer than 12 preamble symbols is outside the legal domain (the
+            // creator raises the preamble, the reference driver takes the number as given) and keeps
+            // the literal
+            let sf = 5 + (seed % 8) as u8;
+            let pp = if sf <= 6 && *preamble < 12 {
+                literal
+            } else {
+                let mp = ModulationParams {
+                    spreading_factor: sf_of(sf as u64).unwrap(),
+                    bandwidth: Bandwidth::_125KHz,
+                    coding_rate: CodingRate::_4_5,
+                    low_data_rate_optimize: 0,
+                    frequency_in_hz: 868_100_000,
+                };
+                r.create_packet_params(*preamble, *implicit, *len, *crc, *iq, &mp).unwrap_or(literal)
+            };
             block_on(r.set_packet_params(&pp))
         }
         Op126::Sync { legacy } => block_on(r.set_lora_sync_word(legacy_to_word(*legacy))),
